@@ -226,6 +226,32 @@ func runC08(c *Ctx) {
 			_, g := c.Guarded(goi, EqNil(Is(old)), true)
 			c.Check(g, "C08.L2-spawn-iff-empty", key, goi.Pos(), "handling goroutine spawned only on the edge where the swapped-out value is nil",
 				"handling goroutine is spawned although an announcement was already pending (two handlers for one slot) or not spawned when the slot was empty")
+			// …and on that edge always: once the new announcement sits in the slot and nothing was pending, nothing but
+			// the goroutine started here will ever take it (a shortcut that skips the spawn strands the slot: every
+			// later announcement of the publisher then looks "already pending" and is dropped)
+			if g {
+				var tblk *ssa.BasicBlock
+				for _, b := range put.Fn.Blocks {
+					iff, ok := b.Instrs[len(b.Instrs)-1].(*ssa.If)
+					if !ok || !(put.In.Block() == b || put.In.Block().Dominates(b)) {
+						continue
+					}
+					cx, v := normFact(c.E(iff.Cond), true)
+					if _, m := Match(EqNil(Is(old)), cx); m {
+						if v {
+							tblk = b.Succs[0]
+						} else {
+							tblk = b.Succs[1]
+						}
+					}
+				}
+				always := false
+				why := "the test of the swapped-out value was not found"
+				if tblk != nil {
+					always, why = blockPathsPass(tblk, func(b *ssa.BasicBlock) bool { return b != tblk && b.Dominates(put.In.Block()) }, func(in ssa.Instruction) bool { return in == ssa.Instruction(goi) })
+				}
+				c.Check(always, "C08.L2-spawn-iff-empty", key+" › always when the slot was empty", goi.Pos(), "every path from the 'slot was empty' edge reaches the go statement", "on the 'slot was empty' edge a path skips the spawn ("+why+"): the announcement stays in the slot with nobody to take it, and every later announcement of that publisher is dropped as 'already pending'")
+			}
 			// the non-nil edge must not spawn and must not drop the new message: it just continues
 			// wait group Add precedes the go statement
 			var add ssa.Instruction
@@ -244,7 +270,7 @@ func runC08(c *Ctx) {
 			c.Bad("C08.L2-spawn-iff-empty", c.short(put.Fn.String())+" › spawn handler", put.In.Pos(), "expected exactly one go statement starting the announce handler after the put")
 		}
 	}
-	c.Floor("C08.L2-spawn-iff-empty", 1)
+	c.Floor("C08.L2-spawn-iff-empty", 2)
 	c.Floor("C08.L2-spawn-registered", 1)
 
 	// ---- L3 semaphore capacity --------------------------------------------------------------
@@ -451,7 +477,8 @@ func c08Outcomes(c *Ctx, handler *ssa.Function, take CallSite) {
 		c.Check(len(unc) == 1 && sends == 1, "C08.L4-failure-path", c.short(sc.String()), sc.Pos(),
 			"failure path un-caches the CID once and sends one error event", "failure path does not (un-cache once and send exactly one event)")
 	}
-	c.Floor("C08.L4-failure-path", 1)
+	uncacheUnconditional(c, "C08.L4-failure-path")
+	c.Floor("C08.L4-failure-path", 2)
 }
 
 // c08Classify classifies a callee as the success or failure notifier by what it does.
@@ -547,6 +574,10 @@ func c08AtomicSection(c *Ctx, all map[string][]*LockAnalysis) {
 	// blocks it fetched are reported by the later sync that succeeds (reporting them from the failed one reports
 	// them twice)
 	handlerExpiryRefreshed(c, "C08.L1-handler-kept-while-used")
+	// "the most recent announcement is always acted on": an announcement the receiver refuses must not leave its CID
+	// in the duplicate filter, or the accepted announcement of the same head that follows is dropped without a sync
+	refusedLeavesNoTrace(c, "C08.L7-refused-announcement-leaves-no-trace")
+	c.Floor("C08.L7-refused-announcement-leaves-no-trace", 1)
 	hookAfterWalk(c, "C08.L6-report-only-on-success")
 	c.Floor("C08.L6-report-only-on-success", 1)
 }
@@ -624,4 +655,29 @@ func handlerExpiryRefreshed(c *Ctx, rule string) {
 		c.Unk(rule, "dagsync › handler lookup-or-create", token.NoPos, "not found")
 	}
 	c.Floor(rule, 1)
+}
+
+// uncacheUnconditional: wherever the subscriber un-caches an announced CID
+// after a failure, it does so whatever the failure was — the only condition
+// is that there is a receiver. (A CID left in the duplicate filter makes the
+// re-announcement of the same head be ignored: the failed sync can never be
+// retried through announcements.)
+func uncacheUnconditional(c *Ctx, rule string) {
+	n := 0
+	for _, f := range c.Funcs(dagsyncPkg) {
+		for _, cs := range c.Calls(f.SSA, Call("announce.Receiver).UncacheCid")) {
+			n++
+			cond := ""
+			for _, fct := range c.FactsAt(cs.In.Block()) {
+				if _, m := Match(EqNil(Field("receiver", Any())), fct.Cond); m {
+					continue
+				}
+				cond = factString(fct)
+			}
+			c.Check(cond == "", rule, f.Name+" › un-cache whatever the error", cs.In.Pos(), "the failed announcement's CID is removed from the duplicate filter unconditionally", "the failed announcement's CID is un-cached only when "+abbreviate(cond)+": for other failures the CID stays in the duplicate filter and a re-announcement of the same head is silently ignored — the failed sync is never retried")
+		}
+	}
+	if n == 0 {
+		c.Unk(rule, "dagsync › UncacheCid", token.NoPos, "no call found")
+	}
 }
